@@ -138,7 +138,7 @@ def gen_cases(prop, n, seed, extra=()):
     rc, so, se = sh([ACVH, "gen", prop, str(n), str(seed)] + list(extra), timeout=1800)
     if rc != 0:
         raise Broken("gen", se[-2000:])
-    return [l for l in so.splitlines() if l.strip()]
+    return [l for l in so.split("\n") if l.strip()]
 
 
 def run_lines(binary, lines, args=(), jobs=None, timeout=7200):
@@ -159,7 +159,7 @@ def run_lines(binary, lines, args=(), jobs=None, timeout=7200):
         except subprocess.TimeoutExpired:
             p.kill()
             so, se = p.communicate()
-        outs[i] = ([l for l in so.splitlines() if l.strip()], se, p.returncode)
+        outs[i] = ([l for l in so.split("\n") if l.strip()], se, p.returncode)
 
     ths = [threading.Thread(target=feed, args=(i, p, ch)) for i, (p, ch) in enumerate(procs)]
     for t in ths: t.start()
